@@ -307,6 +307,7 @@ func z3Body(sc z3Scenario) func() {
 			if sc.CancelLate && !clean {
 				// ... or exactly before a request or a piece of a body, however late in the transfer (one deviation of class cancel)
 				gone := false
+				srv.AfterResponse = sc.Name == "corrupt-then-cancel" // (there also while an answer is on its way back)
 				srv.OnNetPoint = func(label string) {
 					if !gone && mcrt.Choose(mcrt.Cancel, "client goes away before "+label, "no", "yes") == 1 {
 						gone = true
@@ -348,6 +349,11 @@ func z3Body(sc z3Scenario) func() {
 						}
 					}
 				}
+			}
+			if clean && sc.Name == "corrupt-then-cancel" {
+				// this retry comes after whatever the interrupted attempt left running has come to rest
+				// (in the other scenarios it comes at once and may join a transfer that is winding down)
+				mcrt.WaitIdle(false)
 			}
 			err := PullModel(ctx, ztName, &registryOptions{}, func(api.ProgressResponse) {})
 			for retry := 0; clean && err != nil && retry < 2 && !sc.WrongSize; retry++ {
